@@ -120,6 +120,7 @@ let handle (x : Sexp.t) : string =
     else match type_of e with
       | TBV w -> fmt_bv (int_of_n w) (cbv prov rho e)
       | TArr (iw, dw) -> show_arr iw dw (carr prov rho e) in
+  Registry.set_model (Printf.sprintf "(c06 %s %s)" machine spec);
   let impl = Sexp.to_string (Sexp.field1 "impl" fs) in
   let show_val p =
     match type_of e with
